@@ -342,15 +342,25 @@ fn cmd_run(args: &[String]) {
         if samples.len() < 3 && prop.nontrivial(c, io) {
             samples.push(format!("{{\"html\":{},\"width\":{},\"cfg\":{},\"outcome\":{}}}", json_bytes_lossy(&c.html), c.width, json_str(&c.cfg.describe()), json_str(&io.short())));
         }
+        // A known finding is a defect of the unchanged code that the model reproduces (that is how it was established).  An
+        // oracle report that a classifier attributes to a known finding is therefore accepted as known only if model and
+        // implementation render the case alike; when both render it and differ, the implementation is doing something the
+        // recorded finding does not describe, and the report counts as a violation (added after the seeded change
+        // C05-colspan-over-empty-columns-phantom-width: its failures fell into the region of C05-zero-width-column-in-colspan).
+        let both_render_differently = matches!(io, Obs::Ok(_)) && matches!(mo, Obs::Ok(_)) && io != mo;
         for v in viols {
             match v.known {
-                Some(k) => {
+                Some(k) if !both_render_differently => {
                     *known_hits.entry(k).or_default() += 1;
                 }
-                None => {
+                _ => {
                     oracle_viol += 1;
                     if findings.iter().filter(|f| f.kind == "oracle").count() < 5 {
-                        findings.push(Finding { kind: "oracle", case: c.clone(), what: v.what.clone(), known: None, imp: io.short(), model: mo.short() });
+                        let what = match v.known {
+                            Some(k) => format!("{} [in the region of known finding {k}, but the model, which reproduces that finding, renders this input differently]", v.what),
+                            None => v.what.clone(),
+                        };
+                        findings.push(Finding { kind: "oracle", case: c.clone(), what, known: None, imp: io.short(), model: mo.short() });
                     }
                 }
             }
